@@ -10,30 +10,40 @@ DRIVER = "C33"
 GENERATED = []
 SOURCES = ["src/allmydata/grid_manager.py", "src/allmydata/crypto/ed25519.py", "src/allmydata/storage_client.py"]
 DESIGN_REF = "DESIGN.md §2 C33"
-TECHNIQUE = ("Lean 4 theorems over an executable model of create_grid_manager_verifier / validate_grid_manager_certificate "
-             "with symbolic Ed25519; differential correspondence on real Ed25519 keys and certificates, signatures mapped to "
-             "symbolic (key, message) ids; independent monitor of the documented predicate")
-LEVEL_TEXT = ("permitted_iff / granted_only_if / tampered_or_foreign_never_grants / no_keys_all_permitted proved in Lean for all key "
-              "lists, certificate lists and times; the model is tied to grid_manager.py by comparing the verifier's answers, "
-              "bad_cert calls and the internal valid_certs count on seeded certificate mixes evaluated at seeded times "
-              "(including the instant of expiry and one microsecond around it).")
-LEVEL_NOTE = ("Lean kernel + standard axioms; Ed25519 unforgeability is an explicit hypothesis (symbolic instance given); "
-              "json/datetime parsing abstracted as a classifier computed by the harness.")
+TECHNIQUE = ("Lean 4 theorems over an executable model of create_grid_manager_verifier / validate_grid_manager_certificate with symbolic "
+             "Ed25519, composed with the broker's use of it (announcement -> server object -> upload_permitted() -> get_servers_for_psi); "
+             "differential correspondence on real Ed25519 keys and certificates (signatures mapped to symbolic (key, message) ids) and on a "
+             "long-lived real StorageFarmBroker driven through a virtual clock and re-announcements; independent monitor of the documented "
+             "predicate evaluated from the construction metadata")
+LEVEL_TEXT = ("10 theorems in Tahoe.Props.C33, for all key lists, certificate lists, announcements and times: permitted_iff (exactly the "
+              "documented predicate, strict at the instant of expiry), expired_at_instant_not_permitted, permission_only_expires, "
+              "more_certificates_never_revoke, granted_only_if (soundness with no assumption on what was signed), "
+              "tampered_or_foreign_never_grants (under the explicit Unforgeable hypothesis), no_keys_all_permitted, upload_verdict_iff / "
+              "upload_verdict_no_keys (upload_permitted() of an announced server is that predicate at the current time, no call history), "
+              "undecodable_entry_never_grants (an announcement entry that cannot be decoded grants nothing and never switches the key check "
+              "off).  Tied to grid_manager.py by the verifier's answers, bad_cert calls and len(valid_certs) on seeded certificate mixes at "
+              "seeded times (gmv lines), and to storage_client.py by the offered list of every broker query (offer lines).")
+LEVEL_NOTE = ("Lean kernel + standard axioms only; Ed25519 unforgeability is an explicit hypothesis with a symbolic instance "
+              "(symVerify_unforgeable); json.loads / datetime.fromisoformat / str.encode outcomes are the model parameter `parse`, computed by "
+              "the harness with the library calls the code uses.  No defect of /repo is open for this property.")
 RULE = ("(1) seeded (key set, certificate list, server, times) tuples against allmydata.grid_manager.create_grid_manager_verifier; "
         "a case is one call of the returned predicate; distinct = distinct (symbolic verifier line, time); non-trivial = at "
-        "least one key configured and at least one certificate present.  (2) seeded HISTORIES on a long-lived real StorageFarmBroker "
-        "(grid-manager keys from tahoe.cfg text; servers announced with certificate sets valid-1h / valid-2h / expired+valid / expired / "
-        "none / wrong key / other server's / tampered / entries SignedCertificate.load cannot decode, alone and mixed) driven through a virtual clock patched into "
-        "allmydata.grid_manager.current_datetime_with_zone: at expiry-1us, expiry, expiry+1us and later instants "
-        "get_servers_for_psi(for_upload=True/False) and IServer.upload_permitted() are called repeatedly, with identical and renewed "
-        "re-announcements in between; the model's permitted(t) is a pure function of (certificates, keys, t) and the broker's offered "
-        "set must be extensionally equal to it at every instant regardless of the call history; a case is one (query, server) pair")
-TRUSTED = ["lean/Tahoe/GridManager/Model.lean is a hand transcription of create_grid_manager_verifier / validate_grid_manager_certificate",
+        "least one key configured and at least one certificate present; a fixed corpus (same signature on other bytes, own certificate "
+        "expired while another server's runs on) runs first.  (2) seeded HISTORIES on a long-lived real StorageFarmBroker "
+        "(grid-manager keys and preferred peers from tahoe.cfg text; servers announced with certificate sets valid-1h / valid-2h / "
+        "expired+valid / expired / none / wrong key / other server's / tampered / entries SignedCertificate.load cannot decode, alone and "
+        "mixed) driven through a virtual clock patched into allmydata.grid_manager.current_datetime_with_zone: at expiry-1us, expiry, "
+        "expiry+1us and later instants get_servers_for_psi(for_upload=True/False), IServer.upload_permitted() and Publish.update_goal "
+        "(every server already holding a share) are called repeatedly, with identical, renewed and undecodable re-announcements in "
+        "between; the model's permitted(t) is a pure function of (latest announcement's certificates, keys, t) and the broker's offered "
+        "list must equal it at every instant regardless of the call history; a case is one (query, server) pair; three fixed corpus "
+        "histories run first; VERIF_CORPUS_ONLY=1 runs only the corpora")
+TRUSTED = ["lean/Tahoe/GridManager/Model.lean and lean/Tahoe/StorageClient/Upload.lean are hand transcriptions of create_grid_manager_verifier / validate_grid_manager_certificate and of _make_storage_server / upload_permitted / the for_upload filter",
            "harness classify(): json.loads / datetime.fromisoformat / str.encode('ascii') outcomes are computed with the same library calls the code uses",
            "mapping of real Ed25519 signatures to symbolic ids (checked on every (key, cert) pair against ed25519.verify_signature)"]
-ASSUMPTIONS = ["Ed25519: verification succeeds only for a signature produced with the matching private key on exactly those bytes (sampled on every pair of every case)",
-               "the grid manager (trust root) signs only well-formed certificates (object with timezone-aware ISO-8601 'expires' and ASCII 'public_key'); "
-               "for a correctly signed malformed certificate the code raises (json/KeyError/TypeError/...) — modelled and compared, and the monitor then demands only soundness (never True without a valid certificate)",
+ASSUMPTIONS = ["Ed25519: verification succeeds only for a signature produced with the matching private key on exactly those bytes (explicit hypothesis Unforgeable; sampled on every pair of every case)",
+               "the grid manager (trust root) signs only well-formed certificates (object with timezone-aware ISO-8601 'expires' and ASCII 'public_key') — hypothesis SignedWellFormed of permitted_iff; "
+               "for a correctly signed malformed certificate the code raises (json/KeyError/TypeError/...) — modelled and compared, never a True (granted_only_if), and the monitor then demands only soundness",
                "broker histories: servers enter through StorageFarmBroker._got_announcement with a stand-in Tub (connectTo returns an inert reconnector; no real Tub can be created in this sandbox) and are marked connected the way test_add_rref does; the only clock the code reads on this path is allmydata.grid_manager.current_datetime_with_zone",
                "now_fn returns a timezone-aware datetime (a naive one makes the comparison raise TypeError; modelled and compared)"]
 
